@@ -115,7 +115,6 @@ func newScopeRegistryWithShardCount(
 }
 
 func (r *scopeRegistry) Report(reporter StatsReporter) {
-	defer r.purgeIfRootClosed()
 	r.reportInternalMetrics()
 
 	for _, subscopeBucket := range r.subscopes {
@@ -138,7 +137,6 @@ func (r *scopeRegistry) Report(reporter StatsReporter) {
 }
 
 func (r *scopeRegistry) CachedReport() {
-	defer r.purgeIfRootClosed()
 	r.reportInternalMetrics()
 
 	for _, subscopeBucket := range r.subscopes {
